@@ -241,6 +241,11 @@ class Catalogue:
         last = resolved.rsplit(".", 1)[-1]
         if resolved.startswith("funsor.ops.") and last in self.op_by_class:
             return "op:" + self.op_by_class[last].fq
+        if resolved.startswith("funsor.ops."):
+            # abstract op classes published by declare_op_types() without being listed in __all__
+            for fq, ci in self.abstract_ops.items():
+                if ci.name == last:
+                    return "abs:" + fq
         return None
 
     def ops_under(self, class_ref: str) -> List[OpInfo]:
